@@ -1,7 +1,7 @@
 (* C19 — correspondence cases.  The implementation's observation is part of each case; check_corr compares it with the
    model, check_spec evaluates the property's own specification (Spec.decision_okb: the four clauses) on it. *)
 From Coq Require Import ZArith List Bool.
-Require Import QV.common.Util QV.C19.Model QV.C19.Spec QV.C19.Driver.
+Require Import QV.common.Util QV.C19.Model QV.C19.Spec QV.C19.Driver QV.C19.DriverLens.
 Import ListNotations.
 Open Scope Z_scope.
 
@@ -17,7 +17,11 @@ Record hobs := {
   ho_err : herr;
   ho_hashes : list Z; ho_caps : list Z; ho_refs : list Z;
   ho_progs : list (nat * list Z * list Z);      (* name, waveform_to_segment, hashes of the program's segments *)
-  ho_dev : list (option Z)                      (* content of the instrument's slots 1..n (None = undefined) *)
+  ho_dev : list (option Z);                     (* content of the instrument's slots 1..n (None = undefined) *)
+  (* round 4 *)
+  ho_lens : list Z;                             (* _segment_lengths *)
+  ho_devlen : list (option Z);                  (* the instrument's DEFINED length of slots 1..n (:TRAC:DEF, length table) *)
+  ho_plens : list (list Z)                      (* lengths of the programs' segments, same order as ho_progs *)
 }.
 
 (* numpy primitives the model relies on, each run on numpy itself (harness/props/c19_prims.py); `out` = what numpy
@@ -73,17 +77,21 @@ Definition herr_eqb (a b : herr) : bool :=
 Definition prog_eqb (a : nat * list Z * list Z) (p : prog) : bool :=
   Nat.eqb (fst (fst a)) (pg_name p) && zlist_eqb (snd (fst a)) (pg_w2s p) && zlist_eqb (snd a) (pg_segs p).
 
-Definition state_eqb (d : driver) (o : hobs) : bool :=
+Definition state_eqb (s : xdriver) (o : hobs) : bool :=
+  let d := x_d s in
+  zlist_eqb (x_lens s) (ho_lens o) && list_eqb (opt_eqb Z.eqb) (map Some (x_devlen s)) (ho_devlen o) &&
   zlist_eqb (dv_hashes d) (ho_hashes o) && zlist_eqb (dv_caps d) (ho_caps o) && zlist_eqb (dv_refs d) (ho_refs o)
   && Nat.eqb (length (dv_known d)) (length (ho_progs o))
   && forallb (fun a => existsb (prog_eqb a) (dv_known d)) (ho_progs o)
   && list_eqb (opt_eqb Z.eqb) (map Some (dv_dev d)) (ho_dev o).
 
-Fixpoint hist_corr (d : driver) (ops : list op) (obs : list hobs) : bool :=
+(* the model with `_segment_lengths` and the defined-length table (DriverLens.v; its x_d component is Driver.step_with,
+   ProofsLens.xstep_refines) *)
+Fixpoint hist_corr (d : xdriver) (ops : list op) (obs : list hobs) : bool :=
   match ops, obs with
   | [], [] => true
   | o :: ops', ob :: obs' =>
-      let '(d', e) := step_with find_place d o in
+      let '(d', e) := xstep find_place d o in
       herr_eqb (herr_of e) (ho_err ob) && state_eqb d' ob && hist_corr d' ops' obs'
   | _, _ => false
   end.
@@ -106,7 +114,20 @@ Definition obs_safe (o : hobs) : bool :=
   && list_eqb (opt_eqb Z.eqb) (map Some (ho_hashes o)) (ho_dev o)
   (* the idle waveform is a segment in use at all times (the idle sequence plays it): slot 0 holds it on the
      instrument and stays reserved, however many programs with an identical segment came and went *)
-  && opt_eqb Z.eqb (nth 0%nat (ho_dev o) None) (Some IDLE) && (1 <=? nth 0%nat (ho_refs o) 0).
+  && opt_eqb Z.eqb (nth 0%nat (ho_dev o) None) (Some IDLE) && (1 <=? nth 0%nat (ho_refs o) 0)
+  (* round 4: a slot plays as many points as the instrument has DEFINED for it: every waveform of every known program
+     sits in a slot defined with exactly the waveform's length; the driver's `_segment_lengths` is what the instrument
+     holds; no slot is defined longer than its capacity *)
+  && Nat.eqb (length (ho_plens o)) (length (ho_progs o))
+  && forallb (fun al =>
+                let w2s := snd (fst (fst al)) in
+                Nat.eqb (length w2s) (length (snd al)) &&
+                forallb (fun ql => opt_eqb Z.eqb (nth (Z.to_nat (fst ql)) (ho_devlen o) None) (Some (snd ql)))
+                        (combine w2s (snd al)))
+             (combine (ho_progs o) (ho_plens o))
+  && list_eqb (opt_eqb Z.eqb) (map Some (ho_lens o)) (ho_devlen o)
+  && Nat.eqb (length (ho_lens o)) (length (ho_caps o))
+  && forallb (fun lc => fst lc <=? snd lc) (combine (ho_lens o) (ho_caps o)).
 
 Definition place_corr h r cp t nh nl impl : bool :=
   match find_place {| m_hashes := h; m_refs := r; m_caps := cp; m_total := t |} nh nl, impl with
@@ -231,7 +252,7 @@ Definition prim_spec (p : prim) : bool :=
 
 Definition check_corr (c : case) : bool :=
   match c with
-  | CHist total ops obs => hist_corr (clear total) ops obs
+  | CHist total ops obs => hist_corr (xclear total) ops obs
   | CPlace h r cp t nh nl impl unchanged =>
       unchanged &&   (* the function is pure: the driver's arrays are not modified *)
       place_corr h r cp t nh nl impl
